@@ -175,6 +175,26 @@ def check_history(res, rng, files):
         cfg = dict(cur)
         trail.append({k: (list(v) if isinstance(v, tuple) else v) for k, v in cfg.items()})
         case = {'file': f['data'], 'configs': trail}
+        if rng.random() < 0.35:
+            # error recovery: a request on this object that is REFUSED (an unreadable stream: empty, another format, an
+            # older container version, closed) or given up after its first item - of any kind, trace listings included -
+            # leaves nothing behind for the listing that follows
+            bad = rng.choice((b'', b'\x00\x00', b'XXXXXXXXXXXXXXXX', bytes.fromhex('00aa5555') + bytes(64), 'closed', 'abandon'))
+            method = rng.choice((p.traces, p.formatted_traces, p.callstacks, p.kevents, p.formatted_kevents, p.os_log_events))
+            try:
+                if bad == 'closed':
+                    s_ = io.BytesIO(f['data'])
+                    s_.close()
+                    list(method(s_))
+                elif bad == 'abandon':
+                    it = iter(method(io.BytesIO(f['data'])))
+                    next(it, None)
+                    del it
+                else:
+                    list(method(io.BytesIO(bad)))
+            except Exception:
+                pass
+            res.count('refused_or_abandoned_requests_before_a_listing')
         try:
             lazy = p.kevents(io.BytesIO(f['data']))
             got = [wire.event_tuple(e) for e in lazy]
@@ -348,6 +368,7 @@ def run(ctx):
     res.require('configurations_with_tid_zero', 1)
     res.require('log_configurations', 10)
     res.require('cli_configurations', 3)
+    res.require('refused_or_abandoned_requests_before_a_listing', 20)
     res.require('history_requests', 20)
     res.require('large_listings', 2)
     res.require('cli_log_listings', 3)
